@@ -167,13 +167,27 @@ class SiteTracer(Tracer):
         if path and PANICKY_RX.fullmatch(path) and n is not None:
             self.site("call", n, path, list(args))
         base = (path or "").rsplit("::", 1)[-1]
+        if path and path.startswith(("std::iter::Iterator::", "core::iter::", "std::iter::")) and base in self.CONSUMERS and args:
+            # a range used directly as an iterator: (a..b).find(..), (a..=b).any(..)
+            r0 = args[0]
+            if isinstance(r0, tuple) and len(r0) == 3 and r0[0] == "struct" and r0[1] in ("Range", "RangeInclusive"):
+                f_ = r0[2] if isinstance(r0[2], dict) else dict(r0[2])
+                args = [("iterdesc", ("range", f_.get("start"), f_.get("end"), r0[1] == "RangeInclusive"))] + list(args[1:])
+            else:
+                ra_ = single_atom(r0) if isinstance(r0, Poly) else None
+                if ra_ and (atom_fn(ra_) or "").endswith("RangeInclusive::<Idx>::new"):
+                    a_, b_ = atom_args(ra_)
+                    args = [("iterdesc", ("range", a_, b_, True))] + list(args[1:])
         if path and path.startswith(("std::iter::Iterator::", "core::iter::", "std::iter::")) and base in self.CONSUMERS \
                 and args and isinstance(args[0], tuple) and args[0] and args[0][0] == "iterdesc" \
                 and base not in ("map", "filter", "filter_map", "take_while", "map_while", "flat_map", "next"):
             cl = [x for x in args[1:] if isinstance(x, tuple) and x and x[0] in ("closure", "fn")]
             res = []
 
+            srch = {}
+
             def then(val, cl=cl, res=res):
+                srch["loop"] = self.loops[-1]
                 for c in cl:
                     if base in ("fold",):
                         res.append(self.apply_any(c, [var("acc@fold"), val]))
@@ -182,7 +196,14 @@ class SiteTracer(Tracer):
                     else:
                         res.append(self.apply_any(c, [val]))
             self.consume(args[0][1], then)
-            return self.call_opaque_noexplore(path, args)
+            out = self.call_opaque_noexplore(path, args)
+            if base in ("find", "position", "any", "all", "find_map") and res and "loop" in srch:
+                # a search over an iterator is a loop that is left at the first element satisfying the predicate: remember the loop
+                # and the predicate value so that rules can read `match it.find(p) { Some(i) => A, None => B }` as such a loop
+                if not hasattr(self, "searches"):
+                    self.searches = {}
+                self.searches[repr(vkey(out))] = {"kind": base, "loop": srch["loop"], "pred": res[0], "value": out}
+            return out
         body = self._inline(inst or path) or self._inline(path)
         if body is not None:
             if body.path in self.fn_stack or self.depth >= self.max_depth:
@@ -305,10 +326,15 @@ class SiteTracer(Tracer):
                     self.bind(p, var((names[0] if names else "arg") + "@cl"), cenv)
                 except Unsupported:
                     pass
-                # tuple patterns: bind each name to its own opaque variable
-                for x in walk(p):
-                    if x.get("k") == "bind":
-                        cenv[x["name"]] = var(x["name"].split("#")[0] + "@cl")
+                # tuple patterns: bind each name to its own opaque variable (a struct pattern keeps the field relation:
+                # |SentMessage { dest, value }| gives arg.dest / arg.value of the one opaque argument)
+                pk = p
+                while pk.get("k") in ("pref", "pderef"):
+                    pk = pk["p"]
+                if pk.get("k") != "pstruct":
+                    for x in walk(p):
+                        if x.get("k") == "bind":
+                            cenv[x["name"]] = var(x["name"].split("#")[0] + "@cl")
             self.loops.append(("closure", node.get("def")))
             try:
                 self.eval(node["body"], cenv)
